@@ -1,8 +1,12 @@
 ------------------------------- MODULE MUPMC -------------------------------
 (* Bounded instance of MUP: every maximum_pending_updates in MaxPendings, update histories of
-   MaxUpd updates with chain-sync full writes and clean-ups in between, every crash position,
-   every subset of landed lazy removals, single failing store operations.  Prints one driver
-   script per reachable quiescent state for the engine (harness/src/bin/kvstore.rs). *)
+   MaxUpd updates (of the kinds in Kinds: pre-close updates that a closed monitor refuses,
+   ChannelForceClosed, preimages) with chain-sync full writes, block connections that take the
+   monitor on chain, clean-ups, deferred completion and archiving in between, every crash
+   position, every subset of landed lazy removals, single failing store operations.  Prints one
+   driver script per reachable quiescent state for the engine (harness/src/bin/kvstore.rs):
+   MUPMC.cfg / MUPMC7.cfg (Kinds = {"pre"}, no closes: the persister alone) feed `--mode mup`,
+   MUPMCc.cfg / MUPMCc7.cfg (the caller's side) feed `--mode cm`. *)
 EXTENDS MUP, Json
 
 VARIABLES hist,   \* driver script so far
@@ -18,41 +22,52 @@ Bit(S, land) ==   \* landing subset as a bit mask over the sorted pending keys
       B(i) == IF i > Len(s) THEN 0 ELSE (IF s[i] \in land THEN 2 ^ (i - 1) ELSE 0) + B(i + 1)
   IN B(1)
 
-Op(o) == [op |-> o, lazy |-> FALSE, after |-> 0, land |-> 0, n |-> 0, mode |-> ""]
+HOp(o) == [op |-> o, lazy |-> FALSE, after |-> 0, land |-> 0, n |-> 0, mode |-> "", kind |-> "",
+           landmon |-> FALSE]
 
-MNew == DNew /\ hist' = Append(hist, Op("new")) /\ inCall' = 0 /\ UNCHANGED nmut
-MUpdate == DUpdate /\ hist' = Append(hist, Op("upd")) /\ inCall' = 0 /\ UNCHANGED nmut
-MSync == DSync /\ hist' = Append(hist, Op("sync")) /\ inCall' = 0 /\ UNCHANGED nmut
+MNew == DNew /\ hist' = Append(hist, HOp("new")) /\ inCall' = 0 /\ UNCHANGED nmut
+MUpdate == \E kd \in Kinds :
+  /\ DUpdate(kd) /\ ~(kd = "pre" /\ memSt # "open")
+  /\ hist' = Append(hist, [HOp("upd") EXCEPT !.kind = kd]) /\ inCall' = 0 /\ UNCHANGED nmut
+(* an update the closed monitor refuses *)
+MUpdateRefused ==
+  /\ DUpdate("pre") /\ memSt # "open"
+  /\ hist' = Append(hist, [HOp("upd") EXCEPT !.kind = "pre"]) /\ inCall' = 0 /\ UNCHANGED nmut
+MSync == DSync /\ hist' = Append(hist, HOp("sync")) /\ inCall' = 0 /\ UNCHANGED nmut
+MChainClose == DChainClose /\ hist' = Append(hist, HOp("close")) /\ inCall' = 0 /\ UNCHANGED nmut
+MArchive == DArchive /\ hist' = Append(hist, HOp("archive")) /\ inCall' = 0 /\ UNCHANGED nmut
 MStep == DStep /\ nmut' = nmut + 1 /\ inCall' = inCall + 1 /\ UNCHANGED hist
 MStepFail == \E a \in BOOLEAN :
   /\ DStepFail(a)
   /\ nmut' = nmut + 1 /\ inCall' = inCall + 1
-  /\ hist' = Append(hist, [Op("fault") EXCEPT !.n = nmut + 1,
-                                              !.mode = IF a THEN "applied" ELSE "noeffect"])
-MReturn == DReturn /\ UNCHANGED <<hist, nmut, inCall>>
+  /\ hist' = Append(hist, [HOp("fault") EXCEPT !.n = nmut + 1,
+                                               !.mode = IF a THEN "applied" ELSE "noeffect"])
+MReturn == DReturn(FALSE) /\ UNCHANGED <<hist, nmut, inCall>>
+MReturnInProgress == DReturn(TRUE) /\ hist' = Append(hist, HOp("defer")) /\ UNCHANGED <<nmut, inCall>>
+MComplete == DComplete /\ hist' = Append(hist, HOp("complete")) /\ UNCHANGED <<nmut, inCall>>
 MLand == DLand /\ UNCHANGED <<hist, nmut, inCall>>
 MCleanup == \E lz \in BOOLEAN :
   /\ DCleanup(lz) /\ call.kind = "none"      \* scripts are sequential: see MCleanupDuringCall
-  /\ hist' = Append(hist, [Op("cleanup") EXCEPT !.lazy = lz]) /\ inCall' = 0 /\ UNCHANGED nmut
+  /\ hist' = Append(hist, [HOp("cleanup") EXCEPT !.lazy = lz]) /\ inCall' = 0 /\ UNCHANGED nmut
 MCleanupDuringCall == \E lz \in BOOLEAN :
   /\ DCleanup(lz) /\ call.kind # "none"
-  /\ hist' = Append(hist, [Op("cleanup") EXCEPT !.lazy = lz]) /\ UNCHANGED <<nmut, inCall>>
+  /\ hist' = Append(hist, [HOp("cleanup") EXCEPT !.lazy = lz]) /\ UNCHANGED <<nmut, inCall>>
 MCStep == DCStep /\ nmut' = nmut + 1 /\ inCall' = inCall + 1 /\ UNCHANGED hist
 MCStepFail == \E a \in BOOLEAN :
   /\ DCStepFail(a)
   /\ nmut' = nmut + 1 /\ inCall' = inCall + 1
-  /\ hist' = Append(hist, [Op("fault") EXCEPT !.n = nmut + 1,
-                                              !.mode = IF a THEN "applied" ELSE "noeffect"])
+  /\ hist' = Append(hist, [HOp("fault") EXCEPT !.n = nmut + 1,
+                                               !.mode = IF a THEN "applied" ELSE "noeffect"])
 (* after > 0: the crash interrupts the call in progress after that many store operations *)
-MCrash == \E land \in SUBSET lazy :
-  /\ DCrash(land)
-  /\ hist' = Append(hist, [Op("crash") EXCEPT !.land = Bit(lazy, land),
+MCrash == \E land \in SUBSET lazy, lm \in {b \in BOOLEAN : b => monLazy} :
+  /\ DCrash(land, lm)
+  /\ hist' = Append(hist, [HOp("crash") EXCEPT !.land = Bit(lazy, land), !.landmon = lm,
          !.after = IF call.kind # "none" \/ cplan # <<>> THEN inCall ELSE 0])
   /\ inCall' = 0 /\ UNCHANGED nmut
-MDone == (halted \/ memId = MaxUpd) /\ call.kind = "none" /\ plan = <<>> /\ cplan = <<>>
-         /\ UNCHANGED mvars
+MDone == call.kind = "none" /\ plan = <<>> /\ cplan = <<>> /\ UNCHANGED mvars
 
-MCNext == MNew \/ MUpdate \/ MSync \/ MStep \/ MStepFail \/ MReturn \/ MLand \/ MCleanup
+MCNext == MNew \/ MUpdate \/ MUpdateRefused \/ MSync \/ MChainClose \/ MArchive \/ MStep \/ MStepFail
+          \/ MReturn \/ MReturnInProgress \/ MComplete \/ MLand \/ MCleanup
           \/ MCleanupDuringCall \/ MCStep \/ MCStepFail \/ MCrash \/ MDone
 
 MCSpec == MCInit /\ [][MCNext]_mvars
